@@ -1,23 +1,29 @@
 //! C06 driver (search results are sound and reflect acknowledged recent writes).
-//! usage: c06 --out DIR --n N [--replay FILE]
+//! usage: c06 --out DIR --n N [--cap C] [--replay FILE] [--grid-only]
+//! Writes DIR/cases_<i>.v (three kinds of shards: sk = compute_search_k grid, mg = merge_knn_results,
+//! en = engine-level search cases), DIR/summary.json, DIR/failures.json, DIR/all_cases.json.
 mod engine_stream;
+mod parts;
 
 use kvh::rng::Rng;
-use serde_json::json;
+use serde_json::{json, Value};
 
 fn main() {
     let args: Vec<String> = std::env::args().collect();
     let mut out = String::from("/verif/.cache/run/C06");
     let mut n = 60usize;
+    let mut cap = 1500usize;
     let mut replay: Option<String> = None;
+    let mut grid_only = false;
     let mut i = 1;
     while i < args.len() {
         match args[i].as_str() {
             "--out" => { out = args[i + 1].clone(); i += 1 }
             "--n" => { n = args[i + 1].parse().unwrap(); i += 1 }
+            "--cap" => { cap = args[i + 1].parse().unwrap(); i += 1 }
             "--replay" => { replay = Some(args[i + 1].clone()); i += 1 }
+            "--grid-only" => grid_only = true,
             "--dump-history" => {
-                // debugging aid: write the replayable form of history I of this seed and exit
                 let idx: usize = args[i + 1].parse().unwrap();
                 std::fs::create_dir_all(&out).unwrap();
                 let v = engine_stream::dump_history(&mut Rng::from_env(), idx);
@@ -29,26 +35,133 @@ fn main() {
         i += 1;
     }
     std::fs::create_dir_all(&out).unwrap();
-    let replay_v: Option<serde_json::Value> =
-        replay.as_ref().map(|p| serde_json::from_str(&std::fs::read_to_string(p).unwrap()).unwrap());
+    let replay_v: Option<Value> = replay.as_ref().map(|p| serde_json::from_str(&std::fs::read_to_string(p).unwrap()).unwrap());
     let t0 = std::time::Instant::now();
     let mut rng = Rng::from_env();
+
+    // ---- replay of a directed scenario / of a pure-function case
+    if let Some(v) = &replay_v {
+        let cv = if v.get("case").is_some() { &v["case"] } else { v };
+        let kind = cv["kind"].as_str().unwrap_or("");
+        if kind == "directed-stale-mirror" {
+            let d = parts::directed_stale_mirror(
+                cv["with_stale_mirrors"].as_bool().unwrap_or(true),
+                cv["with_tombstones"].as_bool().unwrap_or(true),
+                cv["ef"].as_u64().map(|x| x as usize),
+            );
+            let fails: Vec<Value> = if d["reproduced"] == json!(true) {
+                vec![json!({"why": "acknowledged recent write missing (directed scenario)", "class": "recent-write-missing-crowded", "case": d})]
+            } else {
+                vec![]
+            };
+            write_out(&out, &json!({"replay": "directed-stale-mirror", "directed": d, "shards": 0, "cases": 1, "oracle_failures": fails}), &[], &[]);
+            println!("c06 replay directed-stale-mirror: reproduced = {}", d["reproduced"]);
+            return;
+        }
+        if kind == "search_k" {
+            let (k, l, t) = (cv["k"].as_u64().unwrap(), cv["live_docs"].as_u64().unwrap(), cv["total_slots"].as_u64().unwrap());
+            let r = kyrodb_engine::hnsw_backend::verif_compute_search_k(k as usize, l as usize, t as usize) as u64;
+            let rows = vec![(k, l, t, r)];
+            let fails = parts::search_k_oracle(&rows);
+            let shards = parts::search_k_shards(&rows, 600);
+            write_out(&out, &json!({"replay": "search_k", "shards": shards.len(), "cases": 1, "oracle_failures": fails}), &shards, &[]);
+            println!("c06 replay search_k: observed {} ; {} oracle failures", r, fails.len());
+            return;
+        }
+    }
+
+    // ---- (i) compute_search_k
+    let rows = parts::search_k_rows(&mut rng, if grid_only { 20_000 } else { 2_500 });
+    let sk_fail = parts::search_k_oracle(&rows);
+    let mut shards = parts::search_k_shards(&rows, 800);
+    let n_sk_shards = shards.len();
+    if grid_only {
+        write_out(&out, &json!({"shards": shards.len(), "cases": rows.len(), "search_k_rows": rows.len(), "oracle_failures": sk_fail}), &shards, &[]);
+        println!("c06 grid-only: {} rows, {} oracle failures", rows.len(), sk_fail.len());
+        return;
+    }
+
+    // ---- (ii) merge_knn_results
+    let mcases = parts::merge_cases(&mut rng, 600);
+    let mg_fail = parts::merge_oracle(&mcases);
+    let mg_shards = parts::merge_shards(&mcases, 300);
+    let n_mg_shards = mg_shards.len();
+    shards.extend(mg_shards);
+
+    // ---- (iii) engine level
     let so = engine_stream::run(&mut rng, n, replay_v.as_ref());
-    let wall_ms = t0.elapsed().as_millis() as u64;
+    let em = parts::engine_emit(&so.cases, cap, 100);
+    let n_en_shards = em.shards.len();
+    shards.extend(em.shards.iter().cloned());
+
+    // ---- directed reproduction of the model's witness, with its two controls
+    let directed = parts::directed_stale_mirror(true, true, Some(10_000));
+    let directed_no_ef = parts::directed_stale_mirror(true, true, None);
+    let control_no_stale = parts::directed_stale_mirror(false, true, Some(10_000));
+    let control_no_tomb = parts::directed_stale_mirror(true, false, Some(10_000));
+
+    let mut failures: Vec<Value> = vec![];
+    failures.extend(sk_fail.iter().cloned());
+    failures.extend(mg_fail.iter().cloned());
+    for f in &so.failures {
+        let mut v = f.to_json();
+        // keep replay files small: the case itself is enough together with ops_prefix
+        if let Some(o) = v.as_object_mut() {
+            o.insert("kind".into(), json!("engine"));
+        }
+        failures.push(v);
+    }
+    if directed["reproduced"] == json!(true) {
+        failures.push(json!({"why": "acknowledged recent write, mirrored in the hot tier with a matching token, is missing from a non-degraded response although it is the nearest live document: 2k stale mirrors fill the hot tier's top-2k and are then dropped, and tombstones fill the cold tier's oversampled candidate list",
+                             "class": "recent-write-missing-crowded", "directed": true, "case": directed}));
+    }
+    let stale_seen = so.cases.iter().filter(|c| c.hot.iter().any(|h| !h.fresh)).count();
+    let samples: Vec<Value> = em.selected_ids.iter().take(2).map(|&i| {
+        let c = &so.cases[i];
+        json!({"target": c.target.as_str(), "metric": c.metric, "dim": c.dim, "k": c.k, "live_docs": c.live_docs, "total_slots": c.total_slots,
+               "hot": c.hot.iter().map(|h| json!([h.id, h.fresh])).collect::<Vec<_>>(),
+               "obs": c.obs.as_ref().map(|o| o.iter().map(|(i, d)| json!([i, d])).collect::<Vec<_>>()).unwrap_or_default(),
+               "path": c.path})
+    }).collect();
     let summary = json!({
-        "histories": so.histories,
-        "cases": so.cases.len(),
-        "failures": so.failures.iter().map(|f| f.to_json()).collect::<Vec<_>>(),
-        "histogram": so.histogram,
-        "near_unit_gap_max": so.near_unit_gap_max,
-        "wall_ms": wall_ms,
-        "stale_mirror_scenarios": [
-            engine_stream::stale_mirror_scenario(2, Some(10_000), 0),
-            engine_stream::stale_mirror_scenario(2, Some(1), 0),
-        ],
+        "shards": shards.len(),
+        "shard_kinds": {"sk": n_sk_shards, "mg": n_mg_shards, "en": n_en_shards},
+        "cases": rows.len() + mcases.len() + so.cases.len(),
+        "search_k_rows": rows.len(),
+        "merge_cases": mcases.len(),
+        "engine": {
+            "histories": so.histories, "searches": so.cases.len(),
+            "correspondence_eligible": em.eligible, "correspondence_selected": em.selected,
+            "correspondence_skipped": em.skipped, "selected_nontrivial": em.nontrivial,
+            "searches_with_stale_mirrors": stale_seen,
+            "near_unit_gap_max": so.near_unit_gap_max,
+            "histogram": so.histogram,
+        },
+        "directed": {"witness": directed, "witness_default_ef": directed_no_ef, "control_without_stale_mirrors": control_no_stale, "control_without_tombstones": control_no_tomb},
+        "big_k_observation": parts::big_k_observation(),
+        "oracle_failures": failures,
+        "samples": samples,
+        "wall_ms": t0.elapsed().as_millis() as u64,
     });
-    std::fs::write(format!("{}/engine.json", out), serde_json::to_string_pretty(&summary).unwrap()).unwrap();
-    let cases: Vec<serde_json::Value> = so.cases.iter().map(|c| c.to_json()).collect();
-    std::fs::write(format!("{}/engine_cases.json", out), serde_json::to_string(&cases).unwrap()).unwrap();
-    println!("c06 engine_stream: {} histories, {} cases, {} oracle failures, {} ms", so.histories, so.cases.len(), so.failures.len(), wall_ms);
+    // all_cases.json: only what a disagreeing correspondence id needs (selected engine cases, merge cases, rows)
+    let sel: Vec<Value> = em.selected_ids.iter().map(|&i| { let mut v = so.cases[i].to_json(); if let Some(o) = v.as_object_mut() { o.insert("id".into(), json!(i)); } v }).collect();
+    let all = vec![
+        json!({"search_k_rows": rows}),
+        json!({"merge_cases": mcases.iter().map(|c| json!({"hot": c.hot, "cold": c.cold, "k": c.k, "obs": c.obs})).collect::<Vec<_>>()}),
+        json!({"engine_selected": sel}),
+    ];
+    write_out(&out, &summary, &shards, &all);
+    println!(
+        "c06: {} search_k rows, {} merge cases, {} engine searches ({} in correspondence), {} oracle failures, directed witness reproduced = {}",
+        rows.len(), mcases.len(), so.cases.len(), em.selected, summary["oracle_failures"].as_array().unwrap().len(), directed["reproduced"]
+    );
+}
+
+fn write_out(out: &str, summary: &Value, shards: &[String], all: &[Value]) {
+    for (k, text) in shards.iter().enumerate() {
+        std::fs::write(format!("{}/cases_{}.v", out, k), text).unwrap();
+    }
+    std::fs::write(format!("{}/summary.json", out), serde_json::to_string_pretty(summary).unwrap()).unwrap();
+    std::fs::write(format!("{}/failures.json", out), serde_json::to_string_pretty(&summary["oracle_failures"]).unwrap()).unwrap();
+    std::fs::write(format!("{}/all_cases.json", out), serde_json::to_string(all).unwrap()).unwrap();
 }
